@@ -12,6 +12,7 @@
 -/
 import IgrisModel.C01.Refine
 import IgrisModel.C01.Slist
+import IgrisModel.C01.More
 namespace Igris.C01
 
 /-- a history of the reference semantics -/
@@ -222,4 +223,68 @@ theorem slist_pop_refines (h : SHeap) (head : Nat) :
       (slistPopFirst h head).2 = some x ∧ SRing (slistPopFirst h head).1 head xs) ∧
     (SRing h head [] → slistPopFirst h head = (h, none)) :=
   ⟨fun x xs r => slistPopFirst_ring h head x xs r, slistPopFirst_empty h head⟩
+end Igris.C01
+
+namespace Igris.C01
+/-! ### slist::move_front, dlist_move_sorted, hlist (lemmas in More.lean) -/
+
+/-- `igris::slist::move_front(n)`: whether or not the node is already in this list (and
+wherever it is), afterwards it is the first element exactly once and the other
+elements keep their order -/
+theorem slist_move_front_refines (h : SHeap) (head n : Nat) (fuel : Nat) :
+    (∀ xs, SRing h head xs → n ∉ head :: xs → xs.length < fuel →
+      SRing (slistMoveFront h fuel n head) head (n :: xs)) ∧
+    (∀ pre post, SRing h head (pre ++ n :: post) → pre.length < fuel →
+      SRing (slistMoveFront h fuel n head) head (n :: (pre ++ post))) :=
+  ⟨fun xs r hn hf => slistMoveFront_absent h head n xs r hn fuel hf,
+   fun pre post r hf => slistMoveFront_present h head n pre post r fuel hf⟩
+
+/-- `dlist_move_sorted(added, head, member, comparator)` for ANY comparator: the lone
+entry is linked in front of the first entry for which the comparator answers true
+(at the tail when there is none); all other entries and all other rings are untouched -/
+theorem move_sorted_refines {h : Heap} {cmp : Nat → Nat → Bool} {added head : Nat} {xs : List Nat} {B : Rings}
+    (ok : RingsOK h ([added] :: (head :: xs) :: B)) (fuel : Nat) (hf : xs.length + 1 < fuel) :
+    RingsOK (dlistMoveSorted h cmp fuel added head)
+      ((head :: (xs.takeWhile (fun y => !cmp added y) ++ added :: xs.dropWhile (fun y => !cmp added y))) :: B) :=
+  moveSorted_ok ok fuel hf
+
+/-- with the comparator `key added < key pos` a list sorted by `key` stays sorted
+(ties: after the entries with an equal key) -/
+theorem move_sorted_keeps_sorted (key : Nat → Int) (added : Nat) (xs : List Nat)
+    (hs : xs.Pairwise (fun a b => key a ≤ key b)) :
+    (xs.takeWhile (fun y => !decide (key added < key y)) ++
+      added :: xs.dropWhile (fun y => !decide (key added < key y))).Pairwise (fun a b => key a ≤ key b) :=
+  moveSorted_sorted key added xs hs
+
+/-- `hlist_for_each` visits the contents in order -/
+theorem hlist_traversal {h : HHeap} {l : Nat} {xs : List Nat} (r : HList h l xs) (fuel : Nat)
+    (hf : xs.length < fuel) : hlistToList h fuel l = xs := hlistToList_list r fuel hf
+
+/-- `hlist_add_next` at the head location pushes in front, at `&p->next` inserts right
+after `p`; `hlist_del` of a member removes exactly it; every `pprev` keeps
+pointing at the location that points at its node (that is `HList`) -/
+theorem hlist_ops_refine {h : HHeap} {l n : Nat} :
+    (∀ xs, HList h l xs → n ∉ xs → HList (hlistAddNext h n (.headFirst l)) l (n :: xs)) ∧
+    (∀ p pre post, HList h l (pre ++ p :: post) → n ∉ pre ++ p :: post →
+      HList (hlistAddNext h n (.nodeNext p)) l (pre ++ p :: n :: post)) ∧
+    (∀ pre post, HList h l (pre ++ n :: post) → HList (hlistDel h n) l (pre ++ post)) ∧
+    (h.pprev n = none → hlistDel h n = h) :=
+  ⟨fun _ r hn => hlist_add_front r hn, fun _ _ _ r hn => hlist_add_after r hn,
+   fun _ _ r => hlist_del_member r, hlist_del_unlinked h n⟩
+
+/-- a removal from one hlist leaves every other (disjoint) hlist as it was -/
+theorem hlist_other_lists_untouched {h : HHeap} {l l2 n : Nat} {pre post ys : List Nat}
+    (r : HList h l (pre ++ n :: post)) (r2 : HList h l2 ys) (hl : l ≠ l2)
+    (hd : ∀ y ∈ ys, y ∉ pre ++ n :: post) : HList (hlistDel h n) l2 ys := hlist_frame_del r r2 hl hd
+
+-- non-vacuity: an empty hlist exists, and two pushes + an insertion + a removal go through
+example : HList (hlistHeadInit ⟨fun _ => none, fun _ => none, fun _ => none⟩ 0) 0 [] :=
+  ⟨by simp, by simp [HChain, hlistHeadInit]⟩
+example (h : HHeap) (r : HList h 0 []) :
+    HList (hlistDel (hlistAddNext (hlistAddNext (hlistAddNext h 1 (.headFirst 0)) 2 (.headFirst 0)) 3 (.nodeNext 2)) 2)
+      0 [3, 1] := by
+  have r1 := hlist_add_front (n := 1) r (by simp)
+  have r2 := hlist_add_front (n := 2) r1 (by simp)
+  have r3 := hlist_add_after (n := 3) (p := 2) (pre := []) (post := [1]) r2 (by simp)
+  exact hlist_del_member (n := 2) (pre := []) (post := [3, 1]) r3
 end Igris.C01
